@@ -47,6 +47,16 @@ func newEcmaTime(goTime Time.Time) ecmaTime {
 }
 
 func (t *ecmaTime) goTime() Time.Time {
+	year, month, day := float64(t.year), float64(t.month), float64(t.day)
+	hour, minute, second, milli := float64(t.hour), float64(t.minute), float64(t.second), float64(t.millisecond)
+	if !dateFieldsFit(year, month, day, hour, minute, second, milli) {
+		epoch := timeClip(dateFromLargeFields(year, month, day, hour, minute, second, milli, t.location))
+		if math.IsNaN(epoch) {
+			return Time.UnixMilli(math.MaxInt64 / 2) // beyond the time value range: TimeClip makes it NaN
+		}
+		return Time.UnixMilli(int64(epoch)).In(t.location)
+	}
+
 	return Time.Date(
 		t.year,
 		dateToGoMonth(t.month),
@@ -129,6 +139,33 @@ func epochToTime(value float64) (Time.Time, error) {
 
 func timeToEpoch(time Time.Time) float64 {
 	return float64(time.UnixMilli())
+}
+
+// dateFieldsFit reports whether time.Date can compose the fields: its int and
+// int64-nanosecond arithmetic, and UnixMilli of the result, must not overflow.
+func dateFieldsFit(year, month, day, hour, minute, second, millisecond float64) bool {
+	return math.Abs(year) <= 1e6 && math.Abs(month) <= 1e7 && math.Abs(day) <= 1e9 && math.Abs(hour) <= 1e10 &&
+		math.Abs(minute) <= 1e12 && math.Abs(second) <= 1e13 && math.Abs(millisecond) <= 9e12
+}
+
+// dateFromLargeFields is MakeDate(MakeDay(year, month, day), MakeTime(hour, minute,
+// second, millisecond)) of 15.9.1.11-13 in IEEE double arithmetic, for finite
+// fields that time.Date cannot take. A year or month for which there is no time
+// value gives NaN (15.9.1.12 step 7).
+func dateFromLargeFields(year, month, day, hour, minute, second, millisecond float64, location *Time.Location) float64 {
+	if math.Abs(year) > 1e6 || math.Abs(month) > 1e7 {
+		return math.NaN()
+	}
+	first := Time.Date(int(year), dateToGoMonth(int(month)), 1, 0, 0, 0, 0, Time.UTC)
+	days := float64(first.UnixMilli()/86400000) + math.Trunc(day) - 1
+	clock := math.Trunc(hour)*3600000 + math.Trunc(minute)*60000 + math.Trunc(second)*1000 + math.Trunc(millisecond)
+	epoch := days*86400000 + clock
+	if location != Time.UTC && math.Abs(epoch) <= maxTimeValue+86400000 {
+		// the fields are local time: UTC(t) of 15.9.1.9
+		_, offset := Time.UnixMilli(int64(epoch)).In(location).Zone()
+		epoch -= float64(offset) * 1000
+	}
+	return epoch
 }
 
 // maxTimeValue is the largest magnitude of a time value (15.9.1.1).
@@ -235,6 +272,10 @@ func newDateTime(argumentList []Value, location *Time.Location) float64 {
 		// 15.9.3.1 step 8: the two-digit-year test applies to ToInteger(year).
 		if year = math.Trunc(year); year >= 0 && year <= 99 {
 			year += 1900
+		}
+
+		if !dateFieldsFit(year, month, day, hour, minute, second, millisecond) {
+			return dateFromLargeFields(year, month, day, hour, minute, second, millisecond, location)
 		}
 
 		time := Time.Date(int(year), dateToGoMonth(int(month)), int(day), int(hour), int(minute), int(second), int(millisecond)*1000*1000, location)
